@@ -304,7 +304,7 @@ func init() {
 		mutant{"counted-means-positive-length", "pkg/core/core.go", "\t\t\tif _, had := stats.DocLengths[nodeID]; had {\n\t\t\t\tstats.TotalDocLength -= int64(stats.DocLengths[nodeID])", "\t\t\tif docLen := stats.DocLengths[nodeID]; docLen > 0 {\n\t\t\t\tstats.TotalDocLength -= int64(docLen)", "GRD-stats", "DB.DeleteMetadata:delete-only-if-counted"},
 	)
 	addMutants("C11",
-		mutant{"backward-frontier-ignores-query-time", "pkg/engine/pathfinding.go", "\t\t\t\t\tedges, found := e.VGetIncomingEdges(indexName, curr, rel, atTime)\n\t\t\t\t\tif found {\n\t\t\t\t\t\tfor _, edge := range edges {\n\t\t\t\t\t\t\tneighbor := edge.TargetID", "\t\t\t\t\tsources, found := e.VGetIncoming(indexName, curr, rel)\n\t\t\t\t\tif found {\n\t\t\t\t\t\tfor _, neighbor := range sources {", "GRD-time", "Engine.FindPath:neighbourhood-read#2"},
+		mutant{"backward-frontier-ignores-query-time", "pkg/engine/pathfinding.go", "\t\t\t\t\tedges, found := e.VGetIncomingEdges(indexName, curr, rel, atTime)\n\t\t\t\t\tif found {\n\t\t\t\t\t\tfor _, edge := range edges {\n\t\t\t\t\t\t\tneighbor := edge.TargetID", "\t\t\t\t\tsources, found := e.VGetIncoming(indexName, curr, rel)\n\t\t\t\t\tif found {\n\t\t\t\t\t\tfor _, neighbor := range sources {", "GRD-time", "Engine.FindPath:reads-as-of-now:VGetIncoming"},
 	)
 	addMutants("C12",
 		mutant{"repair-through-merged-both-view", "pkg/engine/recovery.go", "\t\t\t\tincoming := e.DB.GetAllRelations(graphID, \"in\")", "\t\t\t\tincoming := e.DB.GetAllRelations(graphID, \"both\")", "SIB-4", "replayAOF:VDEL-repair-directions"},
@@ -371,5 +371,110 @@ func init() {
 		mutant{"benign:hard-delete-split-renamed-and-inverted", "pkg/core/graph.go", "\t\t\tif hardDelete {\n\t\t\t\tnewIn := inList[:0]\n\t\t\t\tfor _, edge := range inList {\n\t\t\t\t\tif edge.SourceID != sourceID {\n\t\t\t\t\t\tnewIn = append(newIn, edge)\n\t\t\t\t\t}\n\t\t\t\t}\n\t\t\t\ttargetNode.InEdges[relationType] = newIn\n\t\t\t} else {", "\t\t\tif soft := !hardDelete; !soft {\n\t\t\t\tnewIn := inList[:0]\n\t\t\t\tfor _, edge := range inList {\n\t\t\t\t\tif edge.SourceID == sourceID {\n\t\t\t\t\t\tcontinue\n\t\t\t\t\t}\n\t\t\t\t\tnewIn = append(newIn, edge)\n\t\t\t\t}\n\t\t\t\ttargetNode.InEdges[relationType] = newIn\n\t\t\t} else {", "silent", ""},
 		mutant{"benign:as-of-filter-as-one-expression", "pkg/core/graph.go", "\tif createdAt <= queryTime {\n\t\tif deletedAt == 0 || deletedAt > queryTime {\n\t\t\treturn true\n\t\t}\n\t}\n\treturn false\n}", "\treturn queryTime >= createdAt && (deletedAt == 0 || queryTime < deletedAt)\n}", "silent", ""},
 		mutant{"benign:addedge-lookup-with-found-flag-only", "pkg/core/graph.go", "\tfor i := range inList {\n\t\tif inList[i].SourceID == sourceID && inList[i].DeletedAt == 0 {\n\t\t\tfoundIn = true\n\t\t\tbreak\n\t\t}\n\t}\n", "\tfor i := range inList {\n\t\tif inList[i].SourceID != sourceID {\n\t\t\tcontinue\n\t\t}\n\t\tif inList[i].DeletedAt == 0 {\n\t\t\tfoundIn = true\n\t\t\tbreak\n\t\t}\n\t}\n", "silent", ""},
+	)
+}
+
+func init() {
+	addMutants("C11",
+		mutant{"benign:subgraph-queue-by-head-index-and-renamed", "pkg/engine/graph.go", "\tfor len(queue) > 0 {\n\t\tcurrent := queue[0]\n\t\tqueue = queue[1:]\n\n\t\tif current.depth >= maxDepth {\n\t\t\tcontinue\n\t\t}\n", "\tfor head := 0; head < len(queue); head++ {\n\t\tcurrent := queue[head]\n\n\t\tif maxDepth <= current.depth {\n\t\t\tcontinue\n\t\t}\n", "silent", ""},
+		mutant{"benign:subgraph-visited-test-as-early-continue", "pkg/engine/graph.go", "\t\t\t\t\tif !visited[target] {\n\t\t\t\t\t\tvisited[target] = true\n\t\t\t\t\t\tdata, _ := e.VGet(indexName, target)\n\t\t\t\t\t\tnodesMap[target] = SubgraphNode{ID: target, Metadata: data.Metadata}\n\t\t\t\t\t\tqueue = append(queue, queueItem{id: target, depth: current.depth + 1})\n\t\t\t\t\t}\n", "\t\t\t\t\tif visited[target] {\n\t\t\t\t\t\tcontinue\n\t\t\t\t\t}\n\t\t\t\t\tvisited[target] = true\n\t\t\t\t\tdata, _ := e.VGet(indexName, target)\n\t\t\t\t\tnodesMap[target] = SubgraphNode{ID: target, Metadata: data.Metadata}\n\t\t\t\t\tqueue = append(queue, queueItem{id: target, depth: current.depth + 1})\n", "silent", ""},
+		mutant{"benign:subgraph-clamp-with-min", "pkg/engine/graph.go", "func (e *Engine) VExtractSubgraph(indexName, rootID string, relations []string, maxDepth int, atTime int64, guideQuery []float32, threshold float64) (*SubgraphResult, error) {\n\tif maxDepth <= 0 {\n\t\tmaxDepth = 1\n\t}\n\tif maxDepth > 5 {\n\t\tmaxDepth = 5\n\t}\n", "func (e *Engine) VExtractSubgraph(indexName, rootID string, relations []string, maxDepth int, atTime int64, guideQuery []float32, threshold float64) (*SubgraphResult, error) {\n\tif maxDepth <= 0 {\n\t\tmaxDepth = 1\n\t}\n\tmaxDepth = min(maxDepth, 5)\n", "silent", ""},
+		mutant{"benign:findpath-rounds-counted-from-one", "pkg/engine/pathfinding.go", "\tfor depth := 0; depth < maxDepth; depth++ {\n", "\tfor round := 1; round <= maxDepth; round++ {\n", "silent", ""},
+		mutant{"benign:findpath-meeting-test-renamed-and-inverted", "pkg/engine/pathfinding.go", "\t\t\tfor _, curr := range fwdQueue {\n\t\t\t\t// Check Intersection\n\t\t\t\tif _, ok := bwdVisited[curr]; ok {\n\t\t\t\t\tmeetingNode = curr\n\t\t\t\t\tgoto Found\n\t\t\t\t}\n", "\t\t\tfor i := 0; i < len(fwdQueue); i++ {\n\t\t\t\tcurr := fwdQueue[i]\n\t\t\t\t// Check Intersection\n\t\t\t\tif _, met := bwdVisited[curr]; met {\n\t\t\t\t\tmeetingNode = curr\n\t\t\t\t\tgoto Found\n\t\t\t\t}\n", "silent", ""},
+	)
+}
+
+func init() {
+	addMutants("C03",
+		mutant{"scan-seeks-once-before-the-loop", "pkg/engine/recovery.go", "\tfor {\n\t\tif _, err := file.Seek(basePos, io.SeekStart); err != nil {\n\t\t\treturn 0, false\n\t\t}\n\t\tn, readErr := file.Read(buf)", "\tif _, err := file.Seek(basePos, io.SeekStart); err != nil {\n\t\treturn 0, false\n\t}\n\tfor {\n\t\tn, readErr := file.Read(buf)", "GRD-scan", "resyncAOF:window-read#1:positioned"},
+	)
+	addMutants("C01",
+		mutant{"deferred-delete-skipped-for-readded-ids", "pkg/engine/recovery.go", "\t\tfor id := range state.deleted {\n\t\t\tif isHnsw {", "\t\tfor id := range state.deleted {\n\t\t\tif _, readded := state.entries[id]; readded {\n\t\t\t\tcontinue\n\t\t\t}\n\t\t\tif isHnsw {", "CDC-8", "apply:delete#1:independent-of-pending-entry"},
+	)
+	addMutants("C05",
+		mutant{"duplicate-create-record-rewrites-state", "pkg/engine/recovery.go", "\t\t\t\tidx := &indexState{\n\t\t\t\t\tmetric:    distance.Euclidean,\n\t\t\t\t\tprecision: distance.Float32,\n\t\t\t\t\tentries:   make(map[string]vectorEntry),\n\t\t\t\t}\n", "\t\t\t\tidx, known := indexes[name]\n\t\t\t\tif !known {\n\t\t\t\t\tidx = &indexState{\n\t\t\t\t\t\tmetric:    distance.Euclidean,\n\t\t\t\t\t\tprecision: distance.Float32,\n\t\t\t\t\t\tentries:   make(map[string]vectorEntry),\n\t\t\t\t\t}\n\t\t\t\t}\n", "CDC-8", "arm:VCREATE:fresh-state-only"},
+	)
+}
+
+func init() {
+	addMutants("C04",
+		mutant{"benign:compress-constructs-again-after-teardown", "pkg/core/core.go", "\tif err := oldHNSWIndex.Close(); err != nil {\n\t\tslog.Warn(\"Failed to close old index during compression\", \"index\", indexName, \"error\", err)\n\t}\n", "\tif err := oldHNSWIndex.Close(); err != nil {\n\t\tslog.Warn(\"Failed to close old index during compression\", \"index\", indexName, \"error\", err)\n\t}\n\tif newIndex, err = hnsw.New(m, efConst, metric, newPrecision, textLang, oldArenaDir); err != nil {\n\t\treturn err\n\t}\n", "silent", ""},
+		mutant{"compress-closes-old-index-first", "pkg/core/core.go", "\tnewIndex, err := hnsw.New(m, efConst, metric, newPrecision, textLang, oldArenaDir)\n\tif err != nil {\n\t\treturn fmt.Errorf(\"failed to create new compressed index: %w\", err)\n\t}\n", "\t_ = oldHNSWIndex.Close()\n\tnewIndex, err := hnsw.New(m, efConst, metric, newPrecision, textLang, oldArenaDir)\n\tif err != nil {\n\t\treturn fmt.Errorf(\"failed to create new compressed index: %w\", err)\n\t}\n", "ORD-validate", "DB.Compress:old-index-closed:after-construction"},
+	)
+}
+
+func init() {
+	addMutants("C08",
+		mutant{"complement-base-from-metadata-keys", "pkg/core/core.go", "\thnswIdx, ok := idx.(*hnsw.Index)\n\tif !ok {\n\t\treturn roaring.New(), nil\n\t}\n\n\treturn hnswIdx.GetAllValidNodeIDs()\n}", "\tif _, ok := idx.(*hnsw.Index); !ok {\n\t\treturn roaring.New(), nil\n\t}\n\tresult := roaring.New()\n\tfor nodeID := range s.metadataMap[indexName] {\n\t\tresult.Add(nodeID)\n\t}\n\treturn result, nil\n}", "GRD-live", "getAllValidNodeIDsLocked:returns-index-live-set"},
+		mutant{"delete-goes-straight-to-the-value-s-posting-list", "pkg/core/core.go", "\t\tfor key, valueMap := range invIdx {\n\t\t\tfor value, bitmap := range valueMap {\n\t\t\t\tbitmap.Remove(nodeID)\n\t\t\t\t// Clean up empty bitmaps\n\t\t\t\tif bitmap.IsEmpty() {\n\t\t\t\t\tdelete(valueMap, value)\n\t\t\t\t}\n\t\t\t}\n", "\t\tfor key, valueMap := range invIdx {\n\t\t\tvalue := fmt.Sprint(currentMeta[key])\n\t\t\tif bitmap, ok := valueMap[value]; ok {\n\t\t\t\tbitmap.Remove(nodeID)\n\t\t\t\t// Clean up empty bitmaps\n\t\t\t\tif bitmap.IsEmpty() {\n\t\t\t\t\tdelete(valueMap, value)\n\t\t\t\t}\n\t\t\t}\n", "SIB-1", "DeleteMetadata:leaves-every-posting-list"},
+	)
+	addMutants("C10",
+		mutant{"compaction-skips-edges-of-unindexed-namespaces", "pkg/engine/recovery.go", "\t\t// 1. Scrive il comando di creazione\n\t\tcmdAdd := persistence.FormatCommand(\"GLINK\",", "\t\tif !e.IndexExists(indexName) {\n\t\t\treturn\n\t\t}\n\t\t// 1. Scrive il comando di creazione\n\t\tcmdAdd := persistence.FormatCommand(\"GLINK\",", "CDC-9", "RewriteAOF:every-edge-re-emitted"},
+	)
+	addMutants("C18",
+		mutant{"training-attempt-only-on-first-insert", "pkg/core/hnsw/hnsw_index.go", "\t\th.ensureQuantizerTrained([][]float32{vector})\n\n\t\tstoredVector = h.quantizer.Quantize(vector)", "\t\tif h.nodeCounter.Load() == 0 {\n\t\t\th.ensureQuantizerTrained([][]float32{vector})\n\t\t}\n\n\t\tstoredVector = h.quantizer.Quantize(vector)", "GRD-trained", "Index.addActive:quantize#1"},
+		mutant{"benign:training-attempt-behind-is-trained-test", "pkg/core/hnsw/hnsw_index.go", "\t\th.ensureQuantizerTrained([][]float32{vector})\n\n\t\tstoredVector = h.quantizer.Quantize(vector)", "\t\tif !h.quantizer.IsTrained() {\n\t\t\th.ensureQuantizerTrained([][]float32{vector})\n\t\t}\n\n\t\tstoredVector = h.quantizer.Quantize(vector)", "silent", ""},
+	)
+	addMutants("C07",
+		mutant{"restart-skips-vectors-of-tombstones", "pkg/core/hnsw/hnsw_index.go", "\t\tif h.arena != nil && node != nil {\n\t\t\tvecBytes, err := h.arena.GetBytes(id)", "\t\tif h.arena != nil && node != nil && !node.Deleted.Load() {\n\t\t\tvecBytes, err := h.arena.GetBytes(id)", "GRD-relink", "LoadSnapshotData:relink-independent-of-deleted"},
+		mutant{"query-normalised-for-float32-only", "pkg/core/hnsw/hnsw_index.go", "\tvar queryF32 []float32\n\tif h.metric == distance.Cosine {", "\tvar queryF32 []float32\n\tif h.metric == distance.Cosine && h.precision == distance.Float32 {", "GRD-querynorm", "searchInternal:normalisation-independent-of-precision"},
+		mutant{"benign:query-normalisation-test-inverted", "pkg/core/hnsw/hnsw_index.go", "\tvar queryF32 []float32\n\tif h.metric == distance.Cosine {", "\tvar queryF32 []float32\n\tif isCos := distance.Cosine == h.metric; isCos {", "silent", ""},
+	)
+}
+
+func init() {
+	addMutants("C11",
+		mutant{"graph-only-nodes-marked-but-not-expanded", "pkg/engine/graph.go", "\t\t\t\t\tif internalID, found := hnswIdx.GetInternalID(target); found {\n\t\t\t\t\t\tallowedSet.Add(internalID)\n\t\t\t\t\t}\n\t\t\t\t\tqueue = append(queue, queueItem{id: target, depth: curr.depth + 1})\n", "\t\t\t\t\tif internalID, found := hnswIdx.GetInternalID(target); found {\n\t\t\t\t\t\tallowedSet.Add(internalID)\n\t\t\t\t\t\tqueue = append(queue, queueItem{id: target, depth: curr.depth + 1})\n\t\t\t\t\t}\n", "GRD-bfs", "marked-implies-enqueued"},
+	)
+}
+
+func init() {
+	addMutants("C16",
+		mutant{"undetermined-namespace-readable-by-any-key", "pkg/auth/rbac.go", "\t// Namespace Check\n\thasNamespaceAccess := false\n", "\t// Namespace Check\n\tif targetNamespace == \"*\" && requiredRole == RoleRead {\n\t\treturn true\n\t}\n\thasNamespaceAccess := false\n", "SIB-roles", "behind-admin-or-namespace-match"},
+		mutant{"benign:namespace-match-returns-directly", "pkg/auth/rbac.go", "\thasNamespaceAccess := false\n\tfor _, ns := range p.Namespaces {\n\t\tif ns == \"*\" || ns == targetNamespace {\n\t\t\thasNamespaceAccess = true\n\t\t\tbreak\n\t\t}\n\t}\n\n\treturn hasNamespaceAccess\n", "\tfor i := range p.Namespaces {\n\t\tif targetNamespace == p.Namespaces[i] || p.Namespaces[i] == \"*\" {\n\t\t\treturn true\n\t\t}\n\t}\n\treturn false\n", "silent", ""},
+	)
+	addMutants("C15",
+		mutant{"access-count-read-only-for-ebbinghaus-default", "pkg/engine/ops.go", "\t\t\t\t\taccessCount := 0\n\t\t\t\t\tif ac, ok := meta[\"_access_count\"].(float64); ok {\n\t\t\t\t\t\taccessCount = int(ac)\n\t\t\t\t\t}\n\n\t\t\t\t\t// Calculate decay with selected model\n\t\t\t\t\tfactor := calculateTimeDecayModel(", "\t\t\t\t\taccessCount := 0\n\t\t\t\t\tif defaultDecayModel == string(hnsw.DecayEbbinghaus) {\n\t\t\t\t\t\tif ac, ok := meta[\"_access_count\"].(float64); ok {\n\t\t\t\t\t\t\taccessCount = int(ac)\n\t\t\t\t\t\t}\n\t\t\t\t\t}\n\n\t\t\t\t\t// Calculate decay with selected model\n\t\t\t\t\tfactor := calculateTimeDecayModel(", "SIB-3", "consults-_access_count-like-its-siblings"},
+	)
+}
+
+func init() {
+	addMutants("C20",
+		mutant{"splitter-drops-invalid-utf8", "pkg/rag/splitter.go", "func (s *RecursiveCharacterSplitter) SplitText(text string) []string {\n", "func (s *RecursiveCharacterSplitter) SplitText(text string) []string {\n\ttext = strings.ToValidUTF8(text, \"\")\n", "GRD-verbatim", "SplitText:split#1:input-verbatim"},
+		mutant{"benign:splitter-trims-outer-whitespace", "pkg/rag/splitter.go", "func (s *RecursiveCharacterSplitter) SplitText(text string) []string {\n", "func (s *RecursiveCharacterSplitter) SplitText(text string) []string {\n\ttext = strings.TrimSpace(text)\n", "silent", ""},
+	)
+	addMutants("C18",
+		mutant{"compress-relies-on-batch-auto-training", "pkg/core/core.go", "\t\tnewIndex.TrainQuantizer(floatVectors)\n", "\t\t_ = floatVectors\n", "GRD-trainfull", "DB.Compress:int8:trained-on-all-vectors-before-re-insertion"},
+	)
+}
+
+func init() {
+	addMutants("C07",
+		mutant{"empty-upper-layer-fails-the-query", "pkg/core/hnsw/hnsw_index.go", "\t\t\t// empty until the next vacuum.)\n\t\t\tcontinue\n", "\t\t\t// empty until the next vacuum.)\n\t\t\treturn []types.Candidate{}, fmt.Errorf(\"search failed at level %d\", l)\n", "GRD-descent", "searchInternal:empty-layer#1:query-continues"},
+	)
+}
+
+func init() {
+	addMutants("C13",
+		mutant{"snapshot-releases-shard-locks-before-encoding", "pkg/core/core.go", "\t\tnodesCopy := make(map[string]*GraphNode, len(s.graphShards[i].nodes))\n\t\tfor id, node := range s.graphShards[i].nodes {\n\t\t\tnodesCopy[id] = node\n\t\t}\n", "\t\tnodesCopy := make(map[string]*GraphNode, len(s.graphShards[i].nodes))\n\t\tfor id, node := range s.graphShards[i].nodes {\n\t\t\tnodesCopy[id] = node\n\t\t}\n\t\ts.graphShards[i].mu.RUnlock()\n", "LCK-9", "DB.Snapshot:encode#1:holds:core.GraphShard.mu"},
+	)
+}
+
+func init() {
+	addMutants("C05",
+		mutant{"duplicate-create-record-replaces-state", "pkg/engine/recovery.go", "\t\t\t\tif _, exists := indexes[name]; !exists {\n\t\t\t\t\tindexes[name] = idx\n\t\t\t\t}\n", "\t\t\t\tindexes[name] = idx\n", "CDC-8", "arm:VCREATE:registers-only-unknown-names"},
+	)
+}
+
+func init() {
+	addMutants("C13",
+		mutant{"batch-norm-written-without-shard-lock", "pkg/core/hnsw/hnsw_index.go", "\t\t\t\t\t\th.LockNode(internalID)\n\t\t\t\t\t\th.getNorms()[internalID] = norm\n\t\t\t\t\t\th.UnlockNode(internalID)\n", "\t\t\t\t\t\th.getNorms()[internalID] = norm\n", "LCK-8b", "norms-element-store"},
+	)
+}
+
+func init() {
+	addMutants("C05",
+		mutant{"evolve-links-before-the-node-exists", "pkg/engine/ops.go", "\tif err := e.VAdd(indexName, newID, newVector, mergedMeta); err != nil {\n\t\treturn \"\", fmt.Errorf(\"failed to create new node: %w\", err)\n\t}\n\n\tinRels := e.VGetIncomingRelations(indexName, oldID)\n", "\tif err := e.VLink(indexName, oldID, newID, \"derived_from\", \"\", 0, nil); err != nil {\n\t\treturn \"\", err\n\t}\n\tif err := e.VAdd(indexName, newID, newVector, mergedMeta); err != nil {\n\t\treturn \"\", fmt.Errorf(\"failed to create new node: %w\", err)\n\t}\n\n\tinRels := e.VGetIncomingRelations(indexName, oldID)\n", "EFF-composite", "Engine.VEvolve:step#1:Engine.VLink:later-rejection-is-undone"},
+		mutant{"evolve-link-failure-leaves-the-new-node", "pkg/engine/ops.go", "\t\t// Undo: deleting the new node also removes the edges copied to it.\n\t\te.VDelete(indexName, newID)\n", "", "EFF-composite", "Engine.VEvolve:step#1:Engine.VAdd:later-rejection-is-undone"},
 	)
 }
